@@ -125,6 +125,137 @@ Section SCG.
   Qed.
 End SCG.
 
+(* ------------------------------------------------------------------ classes given by reference as well *)
+Section SCGR.
+  Variable u : univ.
+  Variable so : sopts.
+  Variable refs : string -> bool.
+  Variable ds : defs.
+  Variable mD : nat.
+  Hypothesis Henum : forall e, refs (ename_ e) = true -> def_lookup (ename_ e) ds = Some (literal_schema (get_enum u e)).
+  Notation BS := (build_ser u so refs).
+  Notation QR := (SerClassProofs.QR u so refs ds).
+  Notation fitsr := (SerClassProofs.fitsr u refs).
+  Hypothesis Hdefs : forall c, refs (cname c) = true ->
+    def_lookup (cname c) ds = Some (BS (S mD) true (TObj c))
+    /\ forallb (fun fd => fitsr mD (fd_ty fd)) (cd_fields (get_cls u c)) = true.
+
+  Definition elem_schema (f : nat) (e : elem) : js :=
+    match e with
+    | EField fd => apply_con (fd_con fd) (BS f false (fd_ty fd))
+    | EMethod sm => BS f false (sm_ty sm)
+    end.
+
+  (* the keywords of the object schema, evaluated on a datum holding a subset of the properties *)
+  Lemma gen_object_valid c f jf ign (dk : list (string * pyval)) :
+    (refs (cname c) && negb ign)%bool = false ->
+    gcls u so (get_cls u c) ->
+    sd [] (map fst dk) = true ->
+    (forall k d, In (k, d) dk -> exists e, In e (elems_of (get_cls u c)) /\ k = elem_alias so e
+                                           /\ jvalid false ds jf (elem_schema f e) d = true) ->
+    (forall e, In e (elems_of (get_cls u c)) -> elem_required so (get_cls u c) e = true -> dict_has (elem_alias so e) dk = true) ->
+    jvalid false ds jf (BS (S f) ign (TObj c)) (PDict dk) = true.
+  Proof.
+    intros Href [Htd [Hfs [[es0 Hes] [Hal [Hnames [Hftys [Hmeths Hdep]]]]]]] Hsd Hall Hreq.
+    rewrite (bs_TObj u so refs), Href. unfold ser_object_schema. cbv zeta.
+    set (cd := get_cls u c) in *. set (es := elems_of cd) in *.
+    unfold depreq_schema_s. rewrite Hdep. cbn [flat_map map fold_right]. rewrite app_nil_r.
+    set (props := map (fun e => (elem_alias so e, elem_schema f e)) es).
+    set (required := map (elem_alias so) (filter (elem_required so cd) es)).
+    set (kws := ([KwType [JObject]] ++ match props with [] => [] | _ :: _ => [KwProperties props] end
+                 ++ match required with [] => [] | _ :: _ => [KwRequired required] end
+                 ++ (if so_addprops so then [] else [KwAddProps (JBoolS false)]))%list).
+    assert (Hnull : nullable kws = false).
+    { unfold kws, nullable. rewrite !existsb_app. destruct props, required, (so_addprops so); reflexivity. }
+    assert (Hpn : prop_names kws = map fst props).
+    { unfold kws, prop_names. rewrite !flat_map_app. destruct props as [|p0 pr] eqn:Ep, required, (so_addprops so); cbn; rewrite ?app_nil_r; reflexivity. }
+    assert (Hpats : prop_patterns kws = []).
+    { unfold kws, prop_patterns. rewrite !flat_map_app. destruct props, required, (so_addprops so); reflexivity. }
+    change (jvalid false ds jf (JS kws) (PDict dk) = true).
+    rewrite jvalid_JS, Hnull. cbn [andb orb]. unfold kws at 2. rewrite !forallb_app.
+    cbn [forallb kw_valid flat_kw type_ok memt existsb jtype_eqb orb andb].
+    assert (HP : forallb (fun k => kw_valid false ds jf kws k (PDict dk)) match props with [] => [] | _ :: _ => [KwProperties props] end = true).
+    { assert (Hpv : props_valid (jvalid false ds jf) props dk = true).
+      { unfold props.
+        assert (Hgen : forall l, (forall e, In e l -> In e es) ->
+                                 props_valid (jvalid false ds jf) (map (fun e => (elem_alias so e, elem_schema f e)) l) dk = true);
+          [|apply Hgen; auto].
+        induction l as [|e r IH]; intros Hsub; [reflexivity|]. cbn [map props_valid].
+        rewrite IH by (intros e' He'; apply Hsub; now right). rewrite andb_true_r.
+        destruct (dict_get (elem_alias so e) dk) as [x|] eqn:Eg; [|reflexivity].
+        apply dict_get_in in Eg. destruct (Hall _ _ Eg) as [e' [He' [Ea Hv]]].
+        assert (Ee : e = e') by (apply (sd_inj (elem_alias so) es [] Hal); auto; apply Hsub; now left). subst e'. exact Hv. }
+      destruct props; [reflexivity|]. cbn [forallb kw_valid] in *. rewrite Hpv. reflexivity. }
+    assert (HR : forallb (fun k => kw_valid false ds jf kws k (PDict dk)) match required with [] => [] | _ :: _ => [KwRequired required] end = true).
+    { assert (Hrq : forallb (fun r => dict_has r dk) required = true).
+      { unfold required. apply forallb_forall. intros r Hr. apply in_map_iff in Hr. destruct Hr as [e [<- He]].
+        apply filter_In in He. destruct He as [Hin Hq]. now apply Hreq. }
+      destruct required; [reflexivity|]. cbn [forallb kw_valid flat_kw required_ok] in *. rewrite Hrq. reflexivity. }
+    rewrite HP, HR. cbn [andb].
+    destruct (so_addprops so); [reflexivity|]. cbn [forallb kw_valid]. rewrite andb_true_r.
+    apply forallb_forall. intros [k x] Hkv. rewrite jvalid_bool, orb_false_r. unfold additional. rewrite Hpn, Hpats.
+    cbn [existsb negb fst]. rewrite andb_true_r, negb_involutive. unfold props. rewrite map_map. cbn [fst].
+    destruct (Hall k x Hkv) as [e [He [-> _]]].
+    apply existsb_exists. exists (elem_alias so e). split; [now apply in_map | apply String.eqb_refl].
+  Qed.
+
+  Lemma fitsr_prim_method f sm : prim_method sm = true -> fitsr f (sm_ty sm) = true.
+  Proof. unfold prim_method. destruct (sm_ty sm); try discriminate; destruct f; reflexivity. Qed.
+
+  Lemma QRG_obj c (dk : list (string * pyval)) :
+    gcls u so (get_cls u c) ->
+    sd [] (map fst dk) = true ->
+    (forall k d, In (k, d) dk -> exists e, In e (elems_of (get_cls u c)) /\ k = elem_alias so e /\ QR (elem_ty e) d) ->
+    (forall e, In e (elems_of (get_cls u c)) -> elem_required so (get_cls u c) e = true -> dict_has (elem_alias so e) dk = true) ->
+    QR (TObj c) (PDict dk).
+  Proof.
+    intros Hg Hsd Hall Hreq bf jf Hfit Hdd Hd. rewrite fitsr_TObj in Hfit.
+    pose proof Hg as [Htd [Hfs [[es0 Hes] [Hal [Hnames [Hftys [Hmeths Hdep]]]]]]].
+    assert (Hsub : forall jf' f, forallb (fun fd => fitsr f (fd_ty fd)) (cd_fields (get_cls u c)) = true ->
+               (forall kd, In kd dk -> dd (snd kd) <= jf') ->
+               forall k d, In (k, d) dk -> exists e, In e (elems_of (get_cls u c)) /\ k = elem_alias so e
+                                                     /\ jvalid false ds jf' (elem_schema f e) d = true).
+    { intros jf' f Hf Hle k d Hin. destruct (Hall k d Hin) as [e [He [Ek Hq]]]. exists e. split; [exact He|]. split; [exact Ek|].
+      assert (Hin0 : In e es0) by (unfold elems_of in He; rewrite Hes in He; exact He).
+      pose proof (ordered_elems_sub (get_cls u c) es0 e Hes Hin0) as Hs. apply in_app_or in Hs.
+      assert (Hdx : in_domain d = true) by (exact (in_domain_dict dk Hd _ Hin)).
+      assert (Hddx : dd d <= jf') by (exact (Hle _ Hin)).
+      destruct e as [fd|sm]; cbn [elem_schema elem_ty] in *.
+      - assert (Hfd : In fd (cd_fields (get_cls u c))).
+        { destruct Hs as [Hs|Hs]; apply in_map_iff in Hs; destruct Hs as [y [Hy Hyin]]; [injection Hy as ->; exact Hyin|discriminate]. }
+        rewrite forallb_forall in Hftys, Hf. pose proof (Hftys fd Hfd) as Hft. apply andb_true_iff in Hft. destruct Hft as [_ Hcon].
+        destruct (fd_con fd); [discriminate|]. cbn [apply_con]. apply (Hq f jf' (Hf fd Hfd) Hddx Hdx).
+      - assert (Hsm : In sm (cd_methods (get_cls u c))).
+        { destruct Hs as [Hs|Hs]; apply in_map_iff in Hs; destruct Hs as [y [Hy Hyin]]; [discriminate|injection Hy as ->; exact Hyin]. }
+        rewrite forallb_forall in Hmeths. apply (Hq f jf' (fitsr_prim_method f sm (Hmeths sm Hsm)) Hddx Hdx). }
+    destruct (refs (cname c)) eqn:Er.
+    - (* through the reference *)
+      rewrite (bs_TObj u so refs), Er. cbn [negb andb]. rewrite jvalid_JS. cbn [nullable existsb orb andb forallb kw_valid].
+      destruct (Hdefs c Er) as [Hlook Hfd]. rewrite Hlook, andb_true_r.
+      destruct jf as [|jf']; [cbn [dd] in Hdd; lia|].
+      apply (gen_object_valid c mD jf' true dk); auto.
+      + rewrite andb_false_r. reflexivity.
+      + apply (Hsub jf' mD); auto. intros kd Hin. pose proof (dd_dict dk (snd kd) (in_map snd _ _ Hin)). lia.
+    - (* inline *)
+      cbn [orb] in Hfit. destruct bf as [|f]; [discriminate|].
+      apply (gen_object_valid c f jf false dk); auto.
+      + rewrite Er. reflexivity.
+      + apply (Hsub jf f); auto. intros kd Hin. pose proof (dd_dict dk (snd kd) (in_map snd _ _ Hin)). lia.
+  Qed.
+
+  Theorem serialized_output_validates_all_options_with_refs n t v :
+    rt_ty u t = true -> ctxg u so t -> has_type u n t v = true -> canonical u v = true ->
+    exists j d, image u so (S n) t v = SROk j /\ unembed j = Some d /\
+                forall bf jf, fitsr bf t = true -> dd d <= jf -> in_domain d = true -> jvalid false ds jf (BS bf false t) d = true.
+  Proof.
+    intros Hrt Hctx Hht Hcan.
+    exact (image_invariant_gen u so QR (QR_none u so refs ds) (QR_bool u so refs ds) (QR_int u so refs ds)
+             (QR_float u so refs ds) (QR_str u so refs ds) (QR_coll u so refs ds) (QR_tuple u so refs ds)
+             (QR_map u so refs ds) (QR_lit u so refs ds) (QR_enum u so refs ds Henum) (QR_union u so refs ds)
+             QRG_obj n t v Hrt Hctx Hht Hcan).
+  Qed.
+End SCGR.
+
 (* ------------------------------------------------------------------ executable hypotheses *)
 Definition gcls_b (u : univ) (o : sopts) (cd : cdef) : bool :=
   negb (is_typed_dict cd) && negb (cd_fields_set cd)
@@ -195,6 +326,26 @@ Section SCGModel.
       as [j [d [Hi [Hu Hv]]]]; try assumption.
     exists j, d. split; [exact Hi|]. split; [exact Hu|]. intros Hd. cbn [model_ser_schema fst snd]. apply Hv; assumption.
   Qed.
+  (* classes used several times (given by reference) included *)
+  Definition gen_hyps_refs (n : nat) (v : value) : bool :=
+    ser_names_ok u t0 && ser_ref_classes_ok u t0 && SerClassProofs.fitsr u refs ser_fuel t0
+    && rt_ty u t0 && (no_obj t0 || guniv_b u so) && has_type u n t0 v && canonical u v.
+
+  Theorem serialized_output_validates_all_options_refs_checked n jf v :
+    gen_hyps_refs n v = true ->
+    exists j d, image u so (S n) t0 v = SROk j /\ unembed j = Some d /\
+                (dd d <= jf -> in_domain d = true ->
+                 jvalid false (snd (model_ser_schema u so false t0)) jf (fst (model_ser_schema u so false t0)) d = true).
+  Proof.
+    unfold gen_hyps_refs. intros H. repeat (apply andb_true_iff in H; destruct H as [H ?]).
+    match goal with Hx : (no_obj t0 || guniv_b u so)%bool = true |- _ => rename Hx into Hctx end.
+    match goal with Hx : ser_ref_classes_ok u t0 = true |- _ => rename Hx into Hcls end.
+    assert (Hc : ctxg u so t0).
+    { apply orb_true_iff in Hctx. destruct Hctx as [Hx|Hx]; [left; exact Hx|right; apply guniv_b_ok; exact Hx]. }
+    destruct (serialized_output_validates_all_options_with_refs u so refs ds (Nat.pred ser_fuel) (ser_enum_defs u so t0 H)
+                (ser_class_defs u so t0 H Hcls) n t0 v) as [j [d [Hi [Hu Hv]]]]; try assumption.
+    exists j, d. split; [exact Hi|]. split; [exact Hu|]. intros Hdd Hd. cbn [model_ser_schema fst snd]. apply Hv; assumption.
+  Qed.
 End SCGModel.
 
 (* satisfiable: an order whose lines skip a default, drop None, hold an Undefined union, with a serialized method,
@@ -222,3 +373,17 @@ Example gen_ex :
                                                                PDict [("p_sku", PStr "y"); ("p_quantity", PInt 2); ("p_note", PStr "n");
                                                                       ("p_tag", PStr "t"); ("p_total", PInt 3)]])]).
 Proof. vm_compute. split; [reflexivity|]. split; [reflexivity|]. eexists. split; reflexivity. Qed.
+
+(* the same with the line class used twice, hence given by reference *)
+Definition gen_ex_univ2 : univ := mkU
+  [ nth 0 (u_classes gen_ex_univ) empty_cls;
+    mkCls KData [ mkF "lines" "lines" (TColl KList (TObj 0)) true VNone false None no_fser;
+                  mkF "first" "first" (TUnion [TObj 0; TNone]) false VNone false None no_fser ] [] [] [] false ]
+  [].
+Definition gen_ex_value2 : value :=
+  VObj 1 [("lines", VList [VObj 0 [("sku", VStr "x"); ("qty", VInt 1); ("note", VNone); ("tag", VUndefined)]]);
+          ("first", VObj 0 [("sku", VStr "y"); ("qty", VInt 2); ("note", VStr "n"); ("tag", VStr "t")])].
+Example gen_ex2 :
+  refs_of_ser gen_ex_univ2 false (TObj 1) = ["C0"] /\ gen_hyps_refs gen_ex_univ2 gen_ex_opts (TObj 1) 3 gen_ex_value2 = true
+  /\ gen_hyps gen_ex_univ2 gen_ex_opts (TObj 1) 3 gen_ex_value2 = false.
+Proof. vm_compute. repeat split; reflexivity. Qed.
